@@ -244,6 +244,7 @@ pub fn on_round_trip(id: &str, f: &Forest, dom: &WeakDom, map: &HashMap<u64, Ref
     // ---- C12: every DOM the reader returns
     if let Dec::Ok(dd) = d {
         c12_check(id, dd, text, dec, out);
+        c12_preserved(id, f, dd, out);
     }
     if !retained(enc, dec) {
         return;
@@ -476,6 +477,32 @@ pub fn c12_check(id: &str, dd: &WeakDom, text: &[u8], dec: &str, out: &mut Vec<S
             let r = copy.insert(root, InstanceBuilder::new("Folder").with_property("UniqueId", Variant::UniqueId(u)));
             if copy.get_unique_id(r) == Some(u) {
                 out.push(format!("{id} C12 dup-uniqueid an instance inserted into the DOM returned by rbx_xml::from_reader kept UniqueId {u} although a decoded instance holds it"));
+            }
+        }
+    }
+}
+
+/// "and is otherwise preserved exactly": when the written instances hold pairwise distinct ids nothing collides, so
+/// every id the decoded DOM holds must be the id its source instance held (instances matched by document order)
+fn c12_preserved(id: &str, f: &Forest, dd: &WeakDom, out: &mut Vec<String>) {
+    let Some(order) = written_order(f) else { return };
+    let got = decoded_order(dd);
+    if got.len() != order.len() {
+        return;
+    }
+    let src: Vec<Option<UniqueId>> = order
+        .iter()
+        .map(|l| f.nodes.iter().find(|n| n.label == *l).and_then(|n| n.props.iter().find(|(k, _)| k == "UniqueId").and_then(|(_, v)| if let Variant::UniqueId(u) = v { Some(*u) } else { None })))
+        .collect();
+    let mut distinct = std::collections::HashSet::new();
+    if !src.iter().flatten().all(|u| distinct.insert(*u)) {
+        return;
+    }
+    for (k, r) in got.iter().enumerate() {
+        if let (Some(want), Some(Variant::UniqueId(have))) = (src[k], dd.get_by_ref(*r).unwrap().properties.get(&"UniqueId".into())) {
+            if *have != want {
+                out.push(format!("{id} C12 uid-not-preserved the instance written with UniqueId {want} (no other written instance holds it) is decoded by rbx_xml holding {have}"));
+                return;
             }
         }
     }
